@@ -50,8 +50,8 @@ def run(ck):
                  ("@org $ffff\n ld a, 5\nendl:\n", 2)]:
         progs.append(("z80", t)); meta.append((int(t.split("\n")[0][6:], 16), L))
     for arch in asmk.ARCHES:
-        for fn, L in (("k64k.bin", 65536), ("k64k1.bin", 65537), ("k70k.bin", 70000), ("k128k.bin", 131072)):
-            for start in ((0, 1, 2, 0x8000) if arch == "z80" else (0, 1)):
+        for fn, L in ((("k64k.bin", 65536), ("k64k1.bin", 65537), ("k70k.bin", 70000), ("k128k.bin", 131072)) if arch == "z80" else (("k64k.bin", 65536), ("k64k1.bin", 65537))):
+            for start in ((0, 1, 0x8000) if arch == "z80" else (0,)):
                 progs.append((arch, "@org %d\n@incbin \"%s\"\nendl:\n\n" % (start, fn))); meta.append((start, L))
             if arch == "z80":
                 progs.append((arch, "@incbin \"%s\"\nendl:\n\n" % fn)); meta.append((0, L))       # no @org at all
